@@ -175,6 +175,15 @@ func (i *interpreter) symBinop(fr *frame, op token.Token, x, y value) value {
 }
 
 func (i *interpreter) strBinop(op token.Token, x, y value) value {
+	if op == token.ADD {
+		_, xo := x.(ostring)
+		_, yo := y.(ostring)
+		if xo || yo {
+			// content unknown either way: the concatenation is a fresh opaque string
+			i.stubs["opaque string concatenation yields a fresh opaque string"]++
+			return i.freshOpaque("cat")
+		}
+	}
 	if _, ok := x.(ostring); ok {
 		i.unsupported("operator %s on opaque symbolic string", op)
 	}
@@ -485,12 +494,12 @@ func (i *interpreter) indexFor(fr *frame, idx value, n int) int {
 
 func (i *interpreter) symBoundsCheck(s *Sym, n int) {
 	p := i.ps.pool
-	bits := kindBits(s.k)
+	w := p.Resize(s.t, kindSigned(s.k), 64)
 	var inb *Term
 	if kindSigned(s.k) {
-		inb = p.And(p.CmpBV("bvsle", p.BV(bits, 0), s.t), p.CmpBV("bvslt", s.t, p.BV(bits, uint64(n))))
+		inb = p.And(p.CmpBV("bvsle", p.BV(64, 0), w), p.CmpBV("bvslt", w, p.BV(64, uint64(n))))
 	} else {
-		inb = p.CmpBV("bvult", s.t, p.BV(bits, uint64(n)))
+		inb = p.CmpBV("bvult", w, p.BV(64, uint64(n)))
 	}
 	if !i.ps.branch(inb) {
 		i.boundsPanic(fmt.Sprintf("index out of range [symbolic] with length %d", n))
@@ -533,7 +542,9 @@ func (i *interpreter) indexValue(fr *frame, x, idx value, et types.Type) value {
 // selectElem returns elems[idx] for symbolic idx: an ite chain for scalar
 // elements, otherwise concretisation.
 func (i *interpreter) selectElem(s *Sym, elems []value) value {
-	i.symBoundsCheck(s, len(elems))
+	if len(elems) < 256 || kindBits(s.k) > 8 {
+		i.symBoundsCheck(s, len(elems))
+	}
 	scalar := len(elems) > 0 && len(elems) <= 512
 	var k0 types.BasicKind
 	for n, e := range elems {
@@ -618,6 +629,9 @@ func (i *interpreter) lookup(fr *frame, instr *ssa.Lookup, x, idx value) value {
 	}
 	if m != nil {
 		i.accessObj(fr, &m.cell, false)
+	}
+	if m != nil && keyIsSymbolic(idx) {
+		return i.lookupSym(fr, instr, m, idx)
 	}
 	v, found := m.lookup(i.mapKey(fr, idx))
 	if !found {
@@ -782,4 +796,116 @@ func (i *interpreter) raceReport(at, other string, write, otherWrite bool) {
 	}
 	i.hstate[key] = true
 	i.ps.event("race", msg, at)
+}
+
+func keyIsSymbolic(k value) bool {
+	switch k := k.(type) {
+	case *Sym, sstring:
+		return true
+	case iface:
+		return keyIsSymbolic(k.v)
+	}
+	return false
+}
+
+// lookupSym looks a symbolic scalar/string key up in a map with concrete keys
+// without enumerating the key's values: an ite chain over the entries when the
+// element type is scalar, otherwise one solver-decided branch per entry.
+func (i *interpreter) lookupSym(fr *frame, instr *ssa.Lookup, m *omap, idx value) value {
+	p := i.ps.pool
+	mt := instr.X.Type().Underlying().(*types.Map)
+	zeroV := zero(mt.Elem())
+	type ent struct {
+		eq *Term
+		v  value
+	}
+	var ents []ent
+	for k := range m.keys {
+		if !m.alive[k] {
+			continue
+		}
+		eq := i.eqTerm(mt.Key(), idx, m.keys[k])
+		if eq.isFalse() {
+			continue
+		}
+		ents = append(ents, ent{eq, m.vals[k]})
+	}
+	_, scalarElem := kindOfValue(zeroV)
+	if scalarElem {
+		ok := true
+		for _, e := range ents {
+			if _, isS := e.v.(*Sym); isS {
+				continue
+			}
+			if _, isK := kindOfValue(e.v); !isK {
+				ok = false
+			}
+		}
+		if ok {
+			zk, _ := kindOfValue(zeroV)
+			res, _ := p.toTerm(zeroV)
+			found := p.Bool(false)
+			for n := len(ents) - 1; n >= 0; n-- {
+				tv, _ := p.toTerm(ents[n].v)
+				res = p.Ite(ents[n].eq, tv, res)
+				found = p.Or(ents[n].eq, found)
+			}
+			v := fromTerm(res, zk)
+			if instr.CommaOk {
+				return tuple{v, i.boxBool(found)}
+			}
+			return v
+		}
+	}
+	for _, e := range ents {
+		if i.ps.branch(e.eq) {
+			if instr.CommaOk {
+				return tuple{e.v, true}
+			}
+			return e.v
+		}
+	}
+	if instr.CommaOk {
+		return tuple{zeroV, false}
+	}
+	return zeroV
+}
+
+// symRef is the address of elems[idx] for a symbolic idx (scalar elements only).
+type symRef struct {
+	elems []value
+	idx   *Sym
+}
+
+func scalarElems(elems []value) bool {
+	if len(elems) == 0 || len(elems) > 512 {
+		return false
+	}
+	var k0 types.BasicKind
+	for n, e := range elems {
+		var k types.BasicKind
+		if s, ok := e.(*Sym); ok {
+			k = s.k
+		} else if kk, ok := kindOfValue(e); ok {
+			k = kk
+		} else {
+			return false
+		}
+		if n == 0 {
+			k0 = k
+		} else if k != k0 {
+			return false
+		}
+	}
+	return true
+}
+
+func (i *interpreter) storeSymRef(sr *symRef, v value) {
+	p := i.ps.pool
+	tv, k := p.toTerm(v)
+	bits := kindBits(sr.idx.k)
+	for n := range sr.elems {
+		te, _ := p.toTerm(sr.elems[n])
+		sr.elems[n] = fromTerm(p.Ite(p.Eq(sr.idx.t, p.BV(bits, uint64(n))), tv, te), k)
+	}
 }
